@@ -35,3 +35,7 @@ POTENTIAL_PARENTS_CACHE_SIZE: int = 20
 DEFAULT_COMMAND_TIMEOUT: float = 10
 MIN_TRANSFER_MGMT_INTERVAL: float = 0.05
 MAX_TRANSFER_MGMT_INTERVAL: float = 0.25
+TRANSFER_MGMT_SETTINGS_POLL_INTERVAL: float = 1.0
+"""Interval at which the transfer management job looks for a changed upload slot
+limit when no management cycle was requested
+"""
